@@ -14,7 +14,9 @@ import (
 	"hzcheck/esp"
 )
 
-func init() { register("C15", c15Order, c15Getters, c15Bits, c15Cache, c15ErrFlow, c15Default) }
+func init() {
+	register("C15", c15Order, c15Getters, c15Bits, c15Cache, c15ErrFlow, c15Default, c15Config)
+}
 
 const (
 	relDecoder = "pkg/app/server/binding/internal/decoder"
